@@ -415,19 +415,22 @@ Proof. reflexivity. Qed.
 Lemma foreach_unfold n rho src pat start upd ext v ps k :
   eval_t bs (S n) rho (Term (TForeach src pat start upd ext) []) v ps k =
   eval_q bs n rho start v ps (fun s0 ps0 =>
-    c <- new_cell s0 ;;
-    eval_q bs n rho src v ps0 (fun item ps1 =>
-      ev_bindpat (evals_n bs n) rho pat item ps1 (fun rho' ps2 =>
-        cur <- get_cell c ;;
-        eval_q bs n rho' upd cur ps2 (fun u ps3 =>
-          set_cell c u ;;
-          match ext with
-          | None => k u ps3
-          | Some e => eval_q bs n rho' e u ps3 k
-          end))) ;;
-    free_cell c).
+    with_cell (scoped_ids ps0) s0
+      (fun c => eval_q bs n rho src v ps0 (fun item ps1 =>
+         ev_bindpat (evals_n bs n) rho pat item ps1 (fun rho' ps2 =>
+           cur <- get_cell c ;;
+           eval_q bs n rho' upd cur ps2 (fun u ps3 =>
+             set_cell c u ;;
+             match ext with
+             | None => k u ps3
+             | Some e => eval_q bs n rho' e u ps3 k
+             end))))
+      (fun _ => ret tt)).
 Proof. reflexivity. Qed.
+End Laws.
 
+Section Laws.
+Variable bs : list funcdef.
 (* first(f) as builtin.jq defines it *)
 Definition first_def : funcdef :=
   FuncDef (codes "first") [codes "g"]
